@@ -8,6 +8,7 @@ package props
 // send, so scheduling delay can only make the code look better. Upper bounds are generous.
 
 import (
+	"bytes"
 	"fmt"
 	"net"
 	"os"
@@ -413,5 +414,80 @@ func TestC14_Lifecycle(t *testing.T) {
 // TestC14_Long holds DNS associations for 16.5 s (the 17 s promise): one batch per shard.
 func TestC14_Long(t *testing.T) {
 	p := kit.Prop[C14Batch]{ID: "C14", Name: "Long", Quick: 4, Thorough: 160, Gen: genC14(32, true), Run: runC14}
+	p.Execute(t)
+}
+
+// ---- the assembled service ----------------------------------------------------------------------
+// NewShadowsocksService with and without an explicit NAT timeout (the default is five minutes): a reply that
+// comes a good while after the client's datagram, well inside the timeout, is still relayed.
+
+type C14Svc struct {
+	Cipher    string `json:"cipher"`
+	TimeoutMs int    `json:"timeout_ms"` // 0: option not given
+	DelayMs   int    `json:"delay_ms"`
+	Seed      int64  `json:"seed"`
+}
+
+func genC14Svc(t *rapid.T) C14Svc {
+	return C14Svc{Cipher: rapid.SampledFrom(kit.AllCiphers).Draw(t, "cipher"), TimeoutMs: rapid.SampledFrom([]int{0, 0, 3000, 60000}).Draw(t, "timeout"),
+		DelayMs: rapid.SampledFrom([]int{0, 150, 400, 900}).Draw(t, "delay"), Seed: rapid.Int64Range(1, 1<<40).Draw(t, "seed")}
+}
+
+func runC14Svc(c C14Svc, info *kit.Info) *kit.Finding {
+	c05Detect()
+	if c05Local.control == "" {
+		info.Skipped = "no local address that the default destination policy allows"
+		return nil
+	}
+	ks := kit.KeySpec{ID: "user", Cipher: c.Cipher, Secret: "assembled-service"}
+	opts := []service.Option{service.WithCiphers(kit.NewCipherList([]kit.KeySpec{ks})), service.WithMetrics(&kit.RecService{})}
+	if c.TimeoutMs > 0 {
+		opts = append(opts, service.WithNatTimeout(time.Duration(c.TimeoutMs)*time.Millisecond))
+	}
+	svc, err := service.NewShadowsocksService(opts...)
+	if err != nil {
+		return kit.Violation("nat:service-setup", "%v", err)
+	}
+	pc, err := net.ListenUDP("udp", &net.UDPAddr{IP: net.IPv4(127, 0, 0, 1)})
+	if err != nil {
+		info.Skipped = err.Error()
+		return nil
+	}
+	done := make(chan struct{})
+	go func() { svc.HandlePacket(pc); close(done) }()
+	defer func() { pc.Close(); <-done }()
+	cl, err1 := kit.NewUDPPeer("127.0.0.1", 0)
+	tgt, err2 := kit.NewUDPPeer(c05Local.control, 0)
+	if err1 != nil || err2 != nil {
+		info.Skipped = "cannot bind peers"
+		return nil
+	}
+	defer cl.Close()
+	defer tgt.Close()
+	key := ks.Key()
+	cl.Send(kit.PackUDP(key, kit.DetBytes(c.Seed, key.SaltSize()), append(kit.SocksAddr(c05Local.control, tgt.Addr.Port, false), "ping"...)), pc.LocalAddr().(*net.UDPAddr))
+	d, ok := tgt.Pop(3 * time.Second)
+	if !ok {
+		return kit.Violation("nat:service-not-forwarding", "the assembled service did not forward a valid datagram to %v", tgt.Addr)
+	}
+	time.Sleep(time.Duration(c.DelayMs) * time.Millisecond)
+	tgt.Send([]byte("pong"), d.From)
+	r, ok := cl.Pop(3 * time.Second)
+	if !ok {
+		to := "the default of five minutes"
+		if c.TimeoutMs > 0 {
+			to = (time.Duration(c.TimeoutMs) * time.Millisecond).String()
+		}
+		return kit.Violation("nat:expired-early", "a reply sent %d ms after the client's datagram was not relayed although the NAT timeout is %s", c.DelayMs, to)
+	}
+	if _, plain, err := kit.UnpackUDP(key, r.Data); err != nil || !bytes.HasSuffix(plain, []byte("pong")) {
+		return kit.Violation("nat:reply-corrupt", "reply does not decrypt to the target's payload (%v)", err)
+	}
+	info.NonTrivial, info.Steps = c.DelayMs > 0, 2
+	return nil
+}
+
+func TestC14_Service(t *testing.T) {
+	p := kit.Prop[C14Svc]{ID: "C14", Name: "Service", Quick: 24, Thorough: 600, Gen: genC14Svc, Run: runC14Svc}
 	p.Execute(t)
 }
